@@ -256,6 +256,10 @@ class PathSearch:
         if r in ("use", "cast"):
             v = self.operand(env, rv["o"][0])
             if r == "cast" and v is not None and v[0] != "k":
+                v = self._deref_const(v)
+                if v is not None and v[0] == "agg" and v[1] is not None and v[2] is not None and not v[3]:
+                    d = self.discr_of(v[1], v[2])            # `Variant as u8`
+                    return ("k", d) if d is not None else None
                 return None
             return v
         if r in ("ref", "rawptr"):
